@@ -88,3 +88,14 @@ TEXT["C10"] = dict(
     note="Trusts porcupine v1.3.0, the Go race detector's happens-before analysis for the accesses a run performs, and the 40-line model. A porcupine timeout (20 s) is inconclusive, never a verdict.",
     technique="Go race detector + offline linearizability checking (porcupine) of stamped client-boundary histories, with eviction events from a callback recorder",
 )
+
+TEXT["C17"] = dict(
+    level="Stress monitoring under the race detector plus exact quiescence monitoring in synctest bubbles. Stress: 20 000 / 600 000 barrier-started rounds of concurrent Get calls (count and pointer-identity oracles; the evidence reports how many rounds had two or more callers inside one construction window) and semaphore loops with a live-holder counter (the evidence reports that the counter reached the capacity). Bubbles: every arrival order of up to 5/7 callers over up to 3 keys x every subset of parked constructions, and every script of up to 5/6 steps over 8 semaphore actions for capacities 0..3, each judged after synctest.Wait() so that 'blocked' and 'returned' are facts, not timeouts. Exploration over schedules.",
+    note="Trusts testing/synctest of Go 1.24.2 and the race detector. A goroutine blocked on something the bubble cannot see (e.g. a mutex) is caught by the bounded-progress watchdog and a solo re-run.",
+    technique="race-detector stress with counting monitors + synctest-bubble scenario enumeration judged at quiescence",
+)
+TEXT["C18"] = dict(
+    level="Online trace-specification monitoring inside synctest bubbles: all Shutdown outcome vectors (nil/error/panic/blocks until timeout) for up to 6/7 services crossed with signal scripts, and all tick-outcome sequences up to 10/13 ticks crossed with the shutdown options, are executed with fully instrumented collaborators; events are injected at quiescence and each log segment is checked against the statement's trace rules. An auxiliary race-detector stage fires ticks and signals concurrently with Shutdown. Exploration (the enumerated outcome space is swept completely; longer histories are not).",
+    note="Trusts testing/synctest of Go 1.24.2. Ticks racing Shutdown are outside the property's quantifier and only observed for data races.",
+    technique="runtime trace checker over an ordered event log of instrumented collaborators, events injected at synctest quiescence",
+)
